@@ -819,13 +819,15 @@ class _World:
             if not ok:
                 return Fail(f'order/raises/{exc_sig(r)}', f'{self._at()}: {r!r}'), None, None
             got = [x.hash for x in r]
-            sig = 'order/history-dependent' if earlier else 'order/not-the-distinct-cells-of-the-dag'
+            # entries that do not belong to the cell's DAG can only have been left behind by another call (possibly
+            # of an earlier case in this process); missing entries on the very first call are a plain ordering defect
+            extra = set(got) - set(dag)
+            sig = 'order/history-dependent' if (earlier or extra) else 'order/not-the-distinct-cells-of-the-dag'
             how = 'order()' if not k else 'order({})'
-            if len(got) != len(dag):
-                return Fail(sig, f'{self._at()}: cell #{ci}.{how} has {len(got)} entries, its DAG has {len(dag)} distinct '
-                                 f'cells ({earlier} earlier order() call(s) in this program)'), None, None
-            if set(got) != set(dag):
-                return Fail(sig, f'{self._at()}: cell #{ci}.{how} lists cells outside its DAG'), None, None
+            if len(got) != len(dag) or set(got) != set(dag):
+                return Fail(sig, f'{self._at()}: cell #{ci}.{how} has {len(got)} entries ({len(extra)} of them outside '
+                                 f'its DAG), its DAG has {len(dag)} distinct cells ({earlier} earlier order() call(s) in '
+                                 f'this program)'), None, None
             seq = [h.hex() for h in got]
             if canon is not None and seq != canon:
                 return Fail('order/not-idempotent', f'{self._at()}: two consecutive {how} calls gave different sequences'), None, None
